@@ -75,7 +75,15 @@ async def run(
         processes.append(process)
 
     # Wait for all processes to be done
-    await asyncio.gather(*processes)
+    try:
+        await asyncio.gather(*processes)
+    except BaseException:
+        # If one simulator fails, the others must not go on stepping
+        # while the world is being shut down.
+        for process in processes:
+            process.cancel()
+        await asyncio.gather(*processes, return_exceptions=True)
+        raise
 
 
 async def sim_process(
